@@ -126,6 +126,22 @@ CHECKS = {
         design='6 (C19)',
         note='values < 2**48; alphabet of 12 keys; ValueError is the contract '
              'for an empty range'),
+    'C20': dict(
+        technique='explicit-state exploration of all allocation histories up '
+                  'to a depth on four storages, plus preemption-bounded '
+                  'schedule exploration of concurrent allocators',
+        text='All histories (depth 4 quick / 5 thorough) over new_oid, store '
+             'of issued ids, store/restore of explicit ids at byte-carry and '
+             'sign boundaries, abort after new_oid, pack, reopen and a '
+             'DB-level add + savepoint + export/import step, on FileStorage, '
+             'MappingStorage and two DemoStorage layerings with a scripted '
+             'random source aimed at ids in the base; every id handed out is '
+             'checked against the ids issued in the session and all ids '
+             'present. Two and three allocator threads (plus a committer of '
+             'an explicit id) are explored to 3 (4) preemptions incl. a '
+             'line-level pass over the allocator code.',
+        design='3 (C20)',
+        note='ids issued but never stored may be re-issued after reopen'),
 }
 
 NOT_BUILT_REASON = ('check not built yet in this round; the design claims it '
